@@ -17,7 +17,9 @@ from mc import explore, report
 from mc.env import appenv
 from mc.vloop import VLoop
 
-MAX_TOLERATED = 4     # hard-coded on purpose: MAX_WATCHDOG_FAILURES as shipped
+from mc import tunables
+
+MAX_TOLERATED = tunables.watchdog_max_failures()   # "the tolerated maximum": bellows' MAX_WATCHDOG_FAILURES, not fixed by the property
 PERIOD_SMALL = 3
 OUTCOMES_V4 = ["ok", "silent", "stopped"]
 OUTCOMES = ["ok", "silent-counters", "silent-buffers", "stopped"]
